@@ -26,7 +26,7 @@ func (chunkfault) Indices(tier string) int {
 	if tier == "thorough" {
 		return 60000
 	}
-	return 2400
+	return 1440
 }
 func (chunkfault) Rule() string {
 	return "Per run index: one seeded document (text or binary, independent renderer with swarm spelling/encoding choices; 1 in 4 " +
